@@ -322,6 +322,17 @@ def run_strings(ctx):
                 variables = dict(DEFAULT_VARIABLES)
                 variables.update({'A': to_lib(a), 'B': to_lib(b)})
                 s = 'A%sB' % op
+                r_ = rng.random()
+                if r_ < 0.3:
+                    # scalar operands carried as numpy scalar types (what numpy functions and samplers hand back)
+                    for nm_, val_ in (('A', a), ('B', b)):
+                        if is_scalar(val_):
+                            variables[nm_] = {int: np.int64, float: np.float64, complex: np.complex128}[type(val_)](val_)
+                            ctx.count('numpy_scalar_operands')
+                elif r_ < 0.45 and op != '^':
+                    # ... or produced by a function call inside the string
+                    s = '%s%s%s' % ('(A+sin(0))' if is_scalar(a) else 'A', op, '(B+sin(0))' if is_scalar(b) else 'B')
+                    ctx.count('numpy_scalar_operands')
             else:
                 variables = dict(DEFAULT_VARIABLES)
                 s = '%s%s%s' % (lit(a), op, lit(b))
